@@ -39,6 +39,14 @@ func (p *Params) Verify(input VerifierInput) error {
 	proof := input.Proof
 	root := input.MerkleRoot
 
+	if proof == nil || len(proof.UAlpha) != p.SizeCodeWord() {
+		return errors.New("invalid proof: uAlpha does not have the size of a codeword")
+	}
+	if len(proof.OpenedColumns) != len(input.SelectedColumns) ||
+		len(proof.MerkleProofOpenedColumns) != len(input.SelectedColumns) {
+		return errors.New("invalid proof: the number of opened columns does not match the number of selected columns")
+	}
+
 	// This checks the consistency between uAlpha and the claimed value
 	uAlphaAtX, err := EvalFextPolyLagrange(input.Proof.UAlpha, input.EvaluationPoint)
 	claimsAtAlpha := EvalFextPolyHorner(input.ClaimedValues, input.Alpha)
@@ -69,6 +77,17 @@ func (p *Params) Verify(input VerifierInput) error {
 
 		if err := proof.MerkleProofOpenedColumns[i].Verify(c, leaf, root); err != nil {
 			return fmt.Errorf("invalid proof: merkle proof verification failed: %w", err)
+		}
+
+		// This checks the consistency between the opened column and the linear
+		// combination: uAlpha[c] = \sum_i column[i] * alpha^i. Without it, uAlpha
+		// (and therefore the claimed values) would not be bound to the commitment.
+		if c < 0 || c >= len(proof.UAlpha) {
+			return errors.New("invalid proof: selected column out of range")
+		}
+		colAtAlpha := EvalBasePolyHorner(proof.OpenedColumns[i], input.Alpha)
+		if colAtAlpha != proof.UAlpha[c] {
+			return errors.New("invalid proof: the opened column is inconsistent with uAlpha")
 		}
 	}
 
